@@ -265,8 +265,11 @@ WIRING = {
  'cast-number': (['Put 9001 into X'], '9001', [None, '9003']),
  'cut-number': (['Put 9001 into X'], '9001', [None]),
  'join-string': (['Put "§1" into X'], '"§1"', [None]),
+ # operand and destination in the same variable, at different places
+ 'cut-element': (['Rock X with "§1", "b", "c"'], None, [None, '"§2"'], 'X at 0', ['X at 1', 'X at 0', 'X at 3', 'Y']),
+ 'cast-element': (['Rock X with "§1", "b", "c"'], None, [None, '9003'], 'X at 0', ['X at 2', 'X at "k"', 'Y']),
 }
-WIRING_KW = {'cut': 'Cut', 'join': 'Join', 'cast-string': 'Cast', 'cast-number': 'Cast', 'cut-number': 'Cut', 'join-string': 'Join'}
+WIRING_KW = {'cut-element': 'Cut', 'cast-element': 'Cast', 'cut': 'Cut', 'join': 'Join', 'cast-string': 'Cast', 'cast-number': 'Cast', 'cut-number': 'Cut', 'join-string': 'Join'}
 DESTS = ['Y', 'X', 'Y at 0', 'Z at "k"']
 
 
@@ -276,15 +279,17 @@ def h_wiring(vm, mir, name, pi, di):
     from .progcommon import instantiate, parsed_program, model_of as _m
     from ..progrun import exec_in_vm
     from .C09 import sym_short_string
-    pre, lit, params = WIRING[name]; kw = WIRING_KW[name]; P = params[pi]; D = DESTS[di]
+    ent = WIRING[name]; pre, lit, params = ent[:3]; O = ent[3] if len(ent) > 3 else 'X'; dests = ent[4] if len(ent) > 4 else DESTS
+    kw = WIRING_KW[name]; P = params[pi]; D = dests[di]
     w = f' with {P}' if P is not None else ''
     setup = ['Put 7 into Z at "k"', 'Rock Y with 8'] if ' at ' in D else []
     progs = {
-        'into': pre + setup + [f'{kw} X into {D}{w}', 'say X', f'say {D}'],
-        'in-place': pre + [f'{kw} X{w}', 'say X'],
-        'plain': pre + ['say X'],
+        'into': pre + setup + [f'{kw} {O} into {D}{w}', f'say {O}', f'say {D}'],
+        # a subscripted operand has no in-place form (the parser requires an identifier): the element is copied into T first
+        'in-place': (pre + [f'{kw} {O}{w}', f'say {O}']) if O == 'X' else (pre + [f'Put {O} into T', f'{kw} T{w}', 'say T']),
+        'plain': pre + [f'say {O}'],
     }
-    if lit is not None and D != 'X': progs['literal'] = setup + [f'{kw} {lit} into {D}{w}', f'say {D}']
+    if lit is not None and D != O: progs['literal'] = setup + [f'{kw} {lit} into {D}{w}', f'say {D}']
     holes = {}
     holes['s1'] = sym_short_string(vm, 's1', 1 if getattr(vm, 'tier', 'quick') == 'quick' else 2)
     holes['s2'] = bstr_from_py(['', ',', 'a'][vm.fork(3, note='s2')]) if ('§2' in (P or '') or name == 'join') else bstr_from_py('')
@@ -318,7 +323,7 @@ def h_wiring(vm, mir, name, pi, di):
     if 'literal' in runs and runs['literal'][0] != err_ip: bad('wiring:outcome-literal', f'`{kw} <literal> into {D}{w}` {"fails" if runs["literal"][0] else "succeeds"} but the variable form {"fails" if err_ip else "succeeds"}'); return out
     if err_ip: return out
     if len(w_into) != 2 or len(w_ip) != 1 or len(w_plain) != 1: bad('wiring:output-count', 'unexpected number of lines'); return out
-    if D != 'X':
+    if D != O:
         e = same(w_into[0], w_plain[0])
         if e is False: bad('wiring:operand-clobbered', f'`{kw} X into {D}` changed X')
         elif e is not True: bad('wiring:operand-clobbered', f'`{kw} X into {D}` changed X', e)
@@ -334,10 +339,11 @@ def h_wiring(vm, mir, name, pi, di):
 
 def jobs(ctx, tier):
     mir = ctx.mir('dev'); js = []
-    for name, (pre, lit, params) in WIRING.items():
+    for name, ent in WIRING.items():
+        params = ent[2]; nd = len(ent[4]) if len(ent) > 4 else (len(DESTS) if tier != 'quick' else 3)
         for pi in range(len(params)):
-            for di in range(len(DESTS) if tier != 'quick' else 3):
-                js.append(Job(f'wiring/{name}/{params[pi]}/{DESTS[di]}', h_wiring, (mir, name, pi, di), witness=['wiring-done'], str_mode='bounded', fuel=20_000_000, weight=6))
+            for di in range(nd):
+                js.append(Job(f'wiring/{name}/{params[pi]}/{(ent[4] if len(ent) > 4 else DESTS)[di]}', h_wiring, (mir, name, pi, di), witness=['wiring-done'], str_mode='bounded', fuel=20_000_000, weight=6))
     for ka in range(6):
         js.append(Job(f'split/{KINDS[ka]}', h_split, (mir, ka), witness=['split-done'], str_mode='bounded', weight=8 if ka == 4 else 1))
         js.append(Job(f'join/{KINDS[ka]}', h_join, (mir, ka), witness=['join-done'], str_mode='bounded', weight=8 if ka == 5 else 1))
@@ -390,7 +396,31 @@ def validate(ctx):
     return good, bad
 
 
+def replay_wiring(ctx, f):
+    """run the programs of a wiring counterexample natively and re-judge the relation on the printed lines"""
+    from .progcommon import program_text
+    cex = f['cex']; out = {'reproduced': None}; res = {}
+    vals = {k: cex[k] for k in ('s1', 's2', 'n1', 'n3') if k in cex}
+    srcs = {k: program_text(t, vals) for k, t in cex['programs'].items()}
+    if any(v is None for v in srcs.values()): return out
+    for prof in ('dev', 'release'):
+        runs = {k: ctx.native(prof).call({'op': 'program', 'src': v, 'stdin': ''}, timeout=20) for k, v in srcs.items()}
+        out[prof + '_native'] = {k: (r.get('result'), r.get('stdout')) for k, r in runs.items()}
+        if any('panic' in r for r in runs.values()): res[prof] = True; continue
+        err = {k: r.get('result') == 'err' for k, r in runs.items()}
+        lines = {k: (r.get('stdout') or '').split('\n')[:-1] for k, r in runs.items()}
+        bad = err['into'] != err['in-place'] or ('literal' in err and err['literal'] != err['in-place'])
+        if not bad and not err['in-place']:
+            bad = len(lines['into']) != 2 or len(lines['in-place']) != 1 or lines['into'][1] != lines['in-place'][0] or ('literal' in lines and lines['literal'][:1] != lines['in-place'][:1])
+            if not bad and f['role'] == 'wiring:operand-clobbered': bad = lines['into'][0] != lines['plain'][0]
+            if not bad and 'operand-clobbered' not in f['role'] and lines['into'][0] != lines['plain'][0] and 'into X\n' not in srcs['into'].replace(' with', '\n'): bad = True
+        res[prof] = bool(bad)
+    out.update(res); out['reproduced'] = any(res.values())
+    return out
+
+
 def replay(ctx, f):
+    if 'programs' in (f.get('cex') or {}): return replay_wiring(ctx, f)
     """replay: the real build must show the same class of failure on the concrete counterexample.
     For value disagreements the reference definition is re-evaluated concretely by the VM's oracle path (Python) below."""
     cex = f.get('cex') or {}
